@@ -285,3 +285,53 @@ fn c24_substring_ascii_start_only() {
 fn c24_substring_multibyte_start_len() {
     substring_total("h\u{e9}l", true);
 }
+
+// ---- floating-point and mixed operands: no panic, NULL on a zero divisor, type of the result
+macro_rules! float_ops {
+    ($name:ident, $l:ident, $r:ident) => {
+        #[kani::proof]
+        #[kani::unwind(8)]
+        fn $name() {
+            let l = any_of(V::$l);
+            let r = any_of(V::$r);
+            let ops = [Op::Plus, Op::Minus, Op::Multiply, Op::Divide, Op::Modulo];
+            let mut i = 0;
+            while i < ops.len() {
+                let res = h::eval_binary_op(&l, &ast_op(ops[i]), &r, SqlMode::default());
+                match &res {
+                    Ok(SqlValue::Null) => {
+                        assert!(matches!(ops[i], Op::Divide | Op::Modulo), "only / and % may yield NULL for non-NULL operands");
+                    }
+                    Ok(SqlValue::Float(_)) | Ok(SqlValue::Numeric(_)) | Ok(SqlValue::Double(_)) | Ok(SqlValue::Real(_)) => {}
+                    Ok(_) => assert!(false, "approximate arithmetic yields an approximate numeric or NULL"),
+                    Err(_) => {}
+                }
+                std::mem::forget(res);
+                i += 1;
+            }
+            kani::cover!(true, "reached");
+            std::mem::forget((l, r));
+        }
+    };
+}
+float_ops!(c24_float_ops_double_double, Double, Double);
+float_ops!(c24_float_ops_float_integer, Float, Integer);
+float_ops!(c24_float_ops_integer_double, Integer, Double);
+float_ops!(c24_float_ops_numeric_bigint, Numeric, Bigint);
+float_ops!(c24_float_ops_real_smallint, Real, Smallint);
+
+/// DIV with approximate operands truncates through f64: no panic, zero divisor is an error.
+#[kani::proof]
+#[kani::unwind(8)]
+fn c24_div_double_double() {
+    let l = any_of(V::Double);
+    let r = any_of(V::Double);
+    let res = h::eval_binary_op(&l, &BinaryOperator::IntegerDivide, &r, SqlMode::default());
+    if let (SqlValue::Double(_), SqlValue::Double(b)) = (&l, &r) {
+        if *b == 0.0 {
+            assert!(res.is_err(), "DIV by zero is an error");
+        }
+    }
+    kani::cover!(res.is_ok(), "a quotient");
+    std::mem::forget((res, l, r));
+}
